@@ -2,6 +2,7 @@ import SpecKitV.Lemmas.SchedLtf
 import SpecKitV.Lemmas.Starts
 import SpecKitV.Lemmas.SchedNewVec
 import SpecKitV.Props.C04
+import SpecKitV.Props.C04Vec
 import SpecKitV.Props.SchedGen
 import SpecKitV.Props.Utils
 
@@ -27,6 +28,10 @@ import SpecKitV.Props.Utils
 #print axioms findJdes_sound
 #print axioms findJdes_fuel
 #print axioms findJdes_complete
+#print axioms vecGridPoint_mono
+#print axioms vecGrid_mono
+#print axioms vecGrid_pos
+#print axioms vecPlan_monotone
 #print axioms gen_ltf_round_eq
 #print axioms gen_ltf_walk_eq_model
 #print axioms gen_new_walk_eq_model
